@@ -142,10 +142,16 @@ class Token(str):
         if self.is_space():
             return True
 
-        for ws in reversed(self.grammar.whitespace):
-            temp = self.replace(ws, " ")
+        # Only the grammar's own white space separates comments here, and
+        # there must be at least one comment: text made of other characters
+        # that Python's str.split() happens to treat as white space (e.g.
+        # a no-break space, which is a legal PVL character) is not WSC.
+        temp = self
+        for ws in self.grammar.whitespace:
+            temp = temp.replace(ws, " ")
 
-        return all(t.is_comment() for t in temp.split())
+        parts = [t for t in temp.split(" ") if len(t) > 0]
+        return len(parts) > 0 and all(t.is_comment() for t in parts)
 
     def is_comment(self) -> bool:
         """Return true if the Token is a comment according to the
